@@ -1210,7 +1210,7 @@ fn main() {
     let (l1, l23, m_multi) = match (thorough, spec.deep) {
       (false, true) => (3, 3, 2),
       (false, false) => (2, 2, 1),
-      (true, true) => (4, 4, 6),
+      (true, true) => (4, 4, 2),
       (true, false) => (3, 3, 3),
     };
     let t0 = rep.elapsed();
